@@ -18,6 +18,7 @@ def _lim(t):
 def server_wiring(sr, sw, cr, cw, ur, uw, pr, pw, relogin):
     """two sessions of user u1 (and one re-login as u2) on a server with symbolic limits at all four server-side levels"""
     hb.KEY = ""
+    relogin = True if relogin else False  # decided once, here
     u1 = aioftp.User("u1", None, base_path="/srv", read_speed_limit=ur, write_speed_limit=uw, read_speed_limit_per_connection=pr, write_speed_limit_per_connection=pw)
     u2 = aioftp.User("u2", None, base_path="/srv", read_speed_limit=ur + 1, write_speed_limit=uw + 1)
     server = st.make_server([u1, u2], read_speed_limit=sr, write_speed_limit=sw, read_speed_limit_per_connection=cr, write_speed_limit_per_connection=cw)
@@ -56,10 +57,15 @@ def server_wiring(sr, sw, cr, cw, ur, uw, pr, pw, relogin):
                         (10, st.Line("USER u2\r\n" if relogin else "NOOP\r\n"), data_of("s1", w1)), (10, st.Line("NOOP\r\n"), grab("s1_after", w1))], eof=True)
     r2 = st.HookReader([(15, st.Line("USER u1\r\n"), None), (10, st.Line("EPSV\r\n"), grab("s2_login", w2)), (10, st.Line("NOOP\r\n"), connect("s2", w2)),
                         (10, st.Line("NOOP\r\n"), data_of("s2", w2))], eof=True)
-    r1.final_gap = r2.final_gap = 10
+    r1.final_gap = 60
+    r2.final_gap = 2
+    # a third session of the same user logs in AFTER the second one has gone, while the first one is still there
+    w3 = hb.CollectWriter()
+    r3 = st.HookReader([(75, st.Line("USER u1\r\n"), None), (5, st.Line("NOOP\r\n"), grab("s3_login", w3))], eof=True)
+    r3.final_gap = 2
 
     async def both():
-        await asyncio.gather(server.dispatcher(r1, w1), server.dispatcher(r2, w2))
+        await asyncio.gather(server.dispatcher(r1, w1), server.dispatcher(r2, w2), server.dispatcher(r3, w3))
 
     loop.run_until_complete(both())
     hb.path_done("c15_wiring", "")
@@ -83,8 +89,20 @@ def server_wiring(sr, sw, cr, cw, ur, uw, pr, pw, relogin):
         hb.KEY = "per-connection-limit"
         return False
     # per user: shared by the sessions of that user; per user connection: one each
-    if t1["user_global"] is not t2["user_global"] or t1["user_global"] is not server.throttle_per_user[u1] or _lim(t1["user_global"]) != (ur, uw):
+    if t1["user_global"] is not t2["user_global"] or _lim(t1["user_global"]) != (ur, uw):
         hb.KEY = "user-global"
+        return False
+    # ... also by a session of that user that arrives after another one of them has left
+    if "s3_login" not in seen:
+        hb.KEY = "third-session"
+        return False
+    t3 = seen["s3_login"][1]
+    s1_user_now = seen["s1_after"][1]["user_global"] if not relogin else None
+    if not relogin and (t3.get("user_global") is not t1["user_global"] or s1_user_now is not t1["user_global"]):
+        hb.KEY = "user-global-not-shared-with-later-session"
+        return False
+    if t3.get("server_global") is not server.throttle or t3.get("server_per_connection") is t1["server_per_connection"]:
+        hb.KEY = "third-session-server-levels"
         return False
     if t1["user_per_connection"] is t2["user_per_connection"] or t1["user_per_connection"].read is t2["user_per_connection"].read:
         hb.KEY = "user-per-connection-shared"
@@ -104,7 +122,7 @@ def server_wiring(sr, sw, cr, cw, ur, uw, pr, pw, relogin):
             return False
     if relogin:
         ka, ta, ca = seen["s1_after"]
-        if ta["user_global"] is not server.throttle_per_user[u2] or ta["user_global"] is t2["user_global"] or _lim(ta["user_global"]) != (ur + 1, uw + 1):
+        if ta["user_global"] is t2["user_global"] or _lim(ta["user_global"]) != (ur + 1, uw + 1):
             hb.KEY = "re-user"
             return False
         if ta["server_global"] is not server.throttle or ta["server_per_connection"] is not t1["server_per_connection"]:
